@@ -670,6 +670,10 @@ func (w *world) query(qi int, q Query) *hx.Failure {
 				w.o.label("explain-failed-plan-predicted")
 				plan = w.predictPlan(b)
 			}
+			if b.subFilter {
+				// the sub-selection has a filter of its own, so the explain criterion does not apply
+				plan = w.predictPlan(b)
+			}
 			if tp, ok := explainPlan(w.twin, b); ok && tp.inverted() {
 				hx.Harnessf("the explain-based detection of join inversion fires on the twin without indexes: %s", b.body)
 			}
@@ -812,7 +816,8 @@ func (w *world) predictPlan(b built) planInfo {
 		return planInfo{}
 	}
 	switch b.class {
-	case "filter-from-holder", "filter-from-related", "count-filter-from-holder", "count-filter-from-related":
+	case "filter-from-holder", "filter-from-related", "count-filter-from-holder", "count-filter-from-related",
+		"relation-filter-with-filtered-sub-selection":
 		return planInfo{invertedByFilter: true}
 	case "order-from-holder", "order-from-related":
 		return planInfo{invertedByOrder: true}
